@@ -96,6 +96,9 @@ class Facts:
         fh = self._fh.get(fn)
         if fh is None:
             fh = self._fh[fn] = open(os.path.join(self.dir, fn), 'rb')
+        if os.environ.get('XV_TRACE_FILES'):
+            with open(os.environ['XV_TRACE_FILES'], 'a') as tf:
+                tf.write(fn + '\n')
         a = json.loads(os.pread(fh.fileno(), ln, off))     # positioned read: forked children share the descriptor, not an offset they could race on
         self._astcache[usr] = a
         return a
